@@ -66,7 +66,7 @@ TRUSTED = [
     "models.Key.get_kids is modelled as a filter over the key table (hex compare = byte compare; stored hkid normalised by KeyMaterial.hex as every handler does)",
 ]
 ASSUMPTIONS = [
-    "licence URLs contain no CR/LF/control characters (not representable / stripped by the XML whitespace clean-up), are at most 4096 characters (longer ones are refused with 400) and do not use the {kids} place holder (repr of a list of bytes); every other brace is literal text",
+    "licence URLs contain no CR/LF/control characters (not representable / stripped by the XML whitespace clean-up), are at most 4096 characters (longer ones are refused with 400) and expand to a WRMHEADER of at most 0xFFFF bytes (otherwise generate_pro raises ValueError: 404 for the manifest, 400 for the init segment – no PRO is generated; pro_wrmheader_roundtrip carries the same bound as a hypothesis) and do not use the {kids} place holder (repr of a list of bytes); every other brace is literal text",
     "a ClearKey request containing a malformed id (non-string, or not unpadded base64url) may be refused as a whole with the controlled JSON error (no keys); a 5xx is a violation; requests are JSON objects carrying a `type` member",
     "PlayReady 1.0 (PIFF) has no cenc:pssh location: with playready__version=1.0 a requested `cenc` location may be omitted",
     "cp_elements compares embedded pssh/pro with the init segment only for adaptation sets whose tracks share one key set (see ledger C11 cp-adaptation-set-key-union)",
